@@ -125,11 +125,13 @@ func flatStreams(id string) []func(*Ctx) StreamResult {
 	ss := []func(*Ctx) StreamResult{flattenStream.Run}
 	switch id {
 	case "C01", "C04":
-		ss = append(ss, replaceStream.Run)
+		ss = append(ss, replaceStream.Run, phasesStreamRun)
+	case "C02", "C08", "C10":
+		ss = append(ss, phasesStreamRun)
 	case "C03":
-		ss = append(ss, uniqifyStream.Run)
+		ss = append(ss, uniqifyStream.Run, phasesStreamRun)
 	case "C06":
-		ss = append(ss, removeUnusedStream.Run)
+		ss = append(ss, removeUnusedStream.Run, phasesStreamRun)
 	case "C07":
 		ss = append(ss, sortStream.Run)
 	case "C09":
